@@ -49,7 +49,7 @@ ENCODING = ["fcp.encoding:PackedEncoder._get_type_length", "fcp.encoding:PackedE
             "fcp.specs.type:NumericType.get_length", "fcp.specs.enum:Enum.max", "lemmas:max_is_enum_max"]
 
 # per-function solver budgets (ms) above the tier default: sized so that the verdict does not flip on a loaded machine
-SLOW = {"fcp.serde:_decode": 60000, "lemmas:unpack_byte": 60000, "lemmas:bit_eq": 30000, "lemmas:rt_dyn": 30000, "lemmas:rt": 60000, "theorems:C01_roundtrip": 60000, "lemmas:rt_str": 30000, "fcp.serde:_decode_struct": 60000, "fcp.serde:_decode_str": 30000, "fcp.serde:decode": 30000, "fcp.serde:_encode": 30000,
+SLOW = {"fcp.serde:_decode": 60000, "lemmas:unpack_byte": 60000, "lemmas:bit_eq": 30000, "lemmas:rt_dyn": 30000, "lemmas:rt": 60000, "theorems:C01_roundtrip": 60000, "theorems:C09_general": 60000, "theorems:C09_dbc": 60000, "lemmas:flat_all_2": 30000, "lemmas:flat_all_1": 30000, "lemmas:rt_str": 30000, "fcp.serde:_decode_struct": 60000, "fcp.serde:_decode_str": 30000, "fcp.serde:decode": 30000, "fcp.serde:_encode": 30000,
         "fcp.serde:_decode_dynamic_array": 30000, "fcp.serde:_encode_struct": 30000}
 
 PLANS = {
@@ -152,10 +152,12 @@ PLANS = {
                        "which performs mkdir(parent) then write_text(str(contents)) and nothing else",
     },
     "C09": {
-        "targets": GEN_CHECKS + PLUGIN_CHECKS + ["fcp.specs.v2:FcpV2.get_struct", "theorems:C09_general", "theorems:C09_dbc"],
+        "targets": GEN_CHECKS + PLUGIN_CHECKS + ["fcp.specs.v2:FcpV2.get_struct", "lemmas:flat_len", "lemmas:flat_at", "lemmas:flat_all_1",
+                                                 "lemmas:flat_all_2", "theorems:C09_general", "theorems:C09_dbc"],
         "native": "wf",
         "trusted": [
-            "assumed contract fcp.specs.v2:FcpV2.get (node list per category; the (struct, field) pairs are abstract FieldNode values)",
+            "builtin model: [x for xs in xss for x in xs] is the recursive concatenation flat_pairs/flat_refs of spec/builtins.py; a "
+            "(struct, field) tuple handed to a check is an object whose two modelled fields are the components (injection tup2ref)",
             "list.count / membership facts used: count(s,x) > 0 <-> x in s, 0 <= count <= len (prelude)",
             "list comprehension over a list is a function of the list (same term in code and spec)",
             "inspect.stack / getframeinfo / Path inside FcpError are opaque observers",
@@ -164,7 +166,10 @@ PLANS = {
         "explanation": "every registered check is proved to reject exactly its clause of the well-formedness spec; the theorems symbolically "
                        "execute the real make_general_verifier(), Generator.register_checks(), Verifier.verify/run_checks and the real @catch/"
                        ".attempt() plumbing and prove verdict == spec for all schemas; order independence follows because the spec is built from "
-                       "count/membership only",
+                       "count/membership only.  FcpV2.get and _flatten are executed from their real source inside the theorems (no "
+                       "contract in between); the clause `no struct has two fields with the same name` is stated over structs and their "
+                       "fields (fields_ok) and connected to the flattened (struct, field) list the verifier walks by the machine-checked "
+                       "lemmas flat_at / flat_all_1 / flat_all_2 (induction over the struct list)",
     },
     "C12": {
         "targets": REFLECTION,
